@@ -110,5 +110,8 @@ func StdWorld() *World {
 		"a.b/x":    dep("x"),
 		"c.d/x":    dep("x"),
 		"e.f/y-go": dep("y"),
+		// path elements that merely end in "vendor" are not vendor directories
+		"k.io/govendor/ctx": dep("ctx"),
+		"k.io/myvendor/api": dep("api"),
 	})
 }
